@@ -46,6 +46,7 @@ def stepLine (st : St) (line : String) : St × String :=
   | "C08" :: rest => (st, Driver.C08.step rest)
   | "C18" :: rest => let (s', o) := Driver.C18.step st.c18 rest; ({ st with c18 := s' }, o)
   | "C16" :: rest => let (s', o) := Driver.C16.step st.c16 rest; ({ st with c16 := s' }, o)
+  | "C11K" :: rest => (st, Driver.C11.stepKeeper rest)
   | "C11" :: rest => (st, Driver.C11.step rest)
   | "ABI" :: rest => (st, Driver.Abi.step rest)
   | "BR" :: rest => let (b, o) := Driver.Bridge.step st.bridge rest; ({ st with bridge := b }, o)
